@@ -212,7 +212,15 @@ func (node *harness) NextAction(ctx context.Context, flow Flow) chan IAction {
 
 	response := make(chan chan IAction, 1)
 	node.mch <- nextHarnessActionMessage{flow: flow, response: response}
-	return <-response
+	select {
+	case out := <-response:
+		return out
+	case <-ctx.Done():
+		// the run loop has stopped (or will stop) without answering: hand the
+		// flow a channel that never fires - its own select notices the
+		// cancellation - instead of blocking it here forever
+		return make(chan IAction)
+	}
 }
 
 func (node *harness) Element() schema.FlowNodeInterface { return node.activity.Element() }
